@@ -125,3 +125,29 @@ pub fn c17(tier: Tier, seed: u64) -> i32 {
     rep.floor("threshold_triples", 300);
     rep.finish()
 }
+
+pub fn c10(tier: Tier, seed: u64) -> i32 {
+    use crate::monitors::c10::C10;
+    let mut rep = Report::new("C10", tier, seed);
+    rep.rule = "every successful single swap of the history workload: (1) reference traversal - the initialized ticks of the pre-state (harness decoders, all arrays in the bank) lying between start and end price, in price order, must be exactly the initialized ticks the swap-loop hook saw crossed, each once, and pool liquidity must change by exactly their signed nets; (2) packaging equivalence on clones of the pre-state for every second swap: permuted slots, duplicated accounts, supplemental arrays (v2), static slots holding one array with the rest supplemental, arrays without initialized ticks deleted from the bank and only named, every array transcoded fixed<->dynamic by the harness encoder, one slot replaced by a non-PDA address, an array of another pool. A variant that still contains every array the swap needs must be byte-identical in pool, oracle, balances, events and abstract tick contents; any other variant may only fail; a foreign array must fail. distinct = (variant, outcome, direction) and (instruction, direction, #crossed, #arrays visited, shifted start)".into();
+    rep.assumptions = vec![SVM_ASSUMPTION.into()];
+    let per_shard = tier.pick(14, 1400);
+    let acc = run_histories(
+        seed,
+        per_shard,
+        move |_r| HistCfg { ops: 120, spl_only: false, allow_adaptive: true, w_swap: 62, w_liq: 26, w_fees: 3, w_lifecycle: 4, w_clock: 3, w_setters: 2, ..Default::default() },
+        || vec![Box::new(C10::default()) as Box<dyn Monitor>],
+    );
+    rep.acc = acc;
+    rep.floor("traversals_checked", 3000);
+    rep.floor("initialized_ticks_crossed", 1000);
+    rep.floor("array_handovers", 200);
+    rep.floor("packaging_variants_identical", 5000);
+    rep.floor("variants_with_arrays_only_named", 200);
+    rep.floor("variants_transcoded", 1000);
+    rep.floor("crossed_first_slot", 20);
+    rep.floor("crossed_last_slot", 20);
+    rep.floor("shifted_start_state", 50);
+    rep.floor("foreign_array_probes", 300);
+    rep.finish()
+}
